@@ -462,7 +462,8 @@ def folder_identity(ctx):
     import vlib
     from autofit.aggregator.search_output import SearchOutput
 
-    for tag in (None, "tag_a"):
+    written = {}
+    for tag in (None, "tag_a", ""):
         case = {"label": "folder-identity", "tag": tag}
         try:
             with contextlib.redirect_stdout(io.StringIO()):
@@ -475,10 +476,18 @@ def folder_identity(ctx):
         except Exception as e:  # noqa
             ctx.disagree("C07.folder-identity-raises", case, f"{type(e).__name__}: {str(e)[:200]}", "an identifier")
             continue
-        ctx.hit("folder-identity:" + ("tagged" if tag else "untagged"))
+        ctx.hit("folder-identity:" + ("tagged" if tag else "untagged" if tag is None else "empty-tag"))
+        written[tag] = search.paths.identifier
         if read_back != search.paths.identifier:
             ctx.fail("C07-folder-id-differs", "a fit read back from its own folder reports another identifier than the one it was written under",
                      case, {"written": search.paths.identifier, "read_back": read_back})
+    if len(written) == 3 and len(set(written.values())) != 3:
+        ctx.fail("C07-insensitive-unique-tag", "fits that differ only in their unique tag (none / empty / non-empty) share an identifier",
+                 {"label": "folder-identity", "tag": "all"}, {k if k is not None else "None": v for k, v in written.items()})
+
+
+def _unused():
+    pass
 
 
 class _Sersic:  # renamed below: two different user classes called `Sersic` (a light and a mass profile)
